@@ -45,8 +45,14 @@ def run_for(prop, repo, jobs=16):
     jobs_l = []
     for cid in sorted(expected.get(prop, [])):
         jobs_l.append((repo, "seeded", cid, prop, 1))
+    lim = {}
+    lf = VERIF / "benign" / "KNOWN_LIMITATIONS.json"
+    if lf.exists():
+        lim = {k: v for k, v in json.loads(lf.read_text()).items() if not k.startswith("_")}
     for d in sorted((VERIF / "benign").iterdir()):
         if (d / "patch.diff").exists():
+            if prop in lim.get(d.name, {}).get("checks", []):
+                continue        # documented false alarm of this check (DESIGN.md section 6): not asserted
             jobs_l.append((repo, "benign", d.name, prop, 0))
     with cf.ThreadPoolExecutor(jobs) as ex:
         res = list(ex.map(_one, jobs_l))
